@@ -781,7 +781,12 @@ fn concurrent_miss_scenario(rep: &mut Report, order_first: usize) {
     let finished = sched.all_finished();
     sched.shutdown();
     for h in handles { let _ = h.join(); }
-    if !reached { rep.disagree(case.clone(), format!("the scenario could not be set up (hook site not reached: {a:?} / {b:?})"), "cache-miss-scenario-setup".into()); }
+    if !reached {
+        // not a verdict about the code (an overloaded machine can miss the 5 s step window): recorded, nothing more
+        rep.count("concurrent_miss_scenario_not_set_up");
+        rep.notes.push(format!("concurrent-miss scenario could not be set up (hook site not reached: {a:?} / {b:?})"));
+        return;
+    }
     if !finished { rep.oracle_fail(case.clone(), "a thread did not return from get_or_insert".into(), "cache:concurrent-miss:stuck".into()); return; }
     let n_init = inits.load(Ordering::SeqCst);
     let len = cache.len();
@@ -790,9 +795,17 @@ fn concurrent_miss_scenario(rep: &mut Report, order_first: usize) {
     if n_init != 1 || len != 1 || !both {
         rep.oracle_fail(case.clone(), format!("after both get_or_insert calls returned: init ran {n_init} times, cache.len() = {len}, both refs ok = {both} (expected 1, 1, true)"), "cache:concurrent-miss:double-insert".into());
     }
-    let v0 = rs[0].as_ref().map(|r| uniform(r.data()));
-    // drop one holder, then push more pages than the shard can hold through the same shard
-    rs[1] = None;
+    // PageRef::data() panics with "page not in cache" when the entry behind a live PageRef is gone
+    let data_of = |r: &Option<PageRef<'static>>| -> Result<Option<Option<u64>>, String> {
+        guarded(std::panic::AssertUnwindSafe(|| r.as_ref().map(|r| uniform(r.data()))))
+    };
+    let v0 = match data_of(&rs[0]) { Ok(v) => v, Err(p) => { rep.oracle_fail(case.clone(), format!("PageRef::data() of a live PageRef panicked right after both calls returned: {p}"), "cache:concurrent-miss:live-pageref-unreadable".into()); None } };
+    // drop one holder (PageRef::drop debug-asserts pin_count > 0: a panic there is a finding, not a crash of the
+    // harness), then push more pages than the shard can hold through the same shard
+    let r1 = rs[1].take();
+    if let Err(p) = guarded(std::panic::AssertUnwindSafe(move || drop(r1))) {
+        rep.oracle_fail(case.clone(), format!("dropping the second PageRef panicked: {p}"), "cache:concurrent-miss:unpin-panic".into());
+    }
     let sh = shard_of(&key);
     let mut pushed = 0;
     let mut p = 0u32;
@@ -805,11 +818,14 @@ fn concurrent_miss_scenario(rep: &mut Report, order_first: usize) {
         let _ = &mut extra;
     }
     let still = cache.data(&PageKey::new(key.0, key.1)).map(|d| uniform(d));
-    let v_now = rs[0].as_ref().map(|r| uniform(r.data()));
+    let v_now = match data_of(&rs[0]) { Ok(v) => v, Err(p) => { rep.oracle_fail(case.clone(), format!("PageRef::data() of the remaining live PageRef panicked after eviction pressure on its shard: {p}"), "cache:concurrent-miss:pinned-page-evicted".into()); None } };
     if still.is_none() || v_now != v0 {
         rep.oracle_fail(case.clone(), format!("the page was evicted (or changed) while a PageRef to it is alive: cached now = {still:?}, through the ref before {v0:?} / now {v_now:?}"), "cache:concurrent-miss:pinned-page-evicted".into());
     }
-    rs[0] = None;
+    let r0 = rs[0].take();
+    if let Err(p) = guarded(std::panic::AssertUnwindSafe(move || drop(r0))) {
+        rep.oracle_fail(case.clone(), format!("dropping the first PageRef panicked: {p}"), "cache:concurrent-miss:unpin-panic".into());
+    }
     drop(rs);
 }
 
